@@ -319,6 +319,7 @@ EXPECT = {
   "write_ended_inside_pcm_frame"
  ],
  "C10": [
+  "c10_stream_not_at_offset_0",
   "c10_padding_near_24bit_limit",
   "c10_24bit_limit_crossed",
   "c10_delta_above_fit",
@@ -393,6 +394,9 @@ EXPECT = {
   "write_ended_inside_pcm_frame"
  ],
  "C16": [
+  "c16_block_longer_than_4608",
+  "c16_uncodable_rate_refused",
+  "c16_uncodable_depth_refused",
   "c16_frame_dropped_by_transport",
   "c16_frame_lost_to_lookalike_or_drop",
   "c16_garbage_all_ff",
